@@ -264,7 +264,7 @@ def validate_bytes(data):
             indent = options.get('indent', 0)
             unit = spec.unit_size(eff)
             sig = spec.signature(eff)
-            lines = _indent_lines(body, nlb, unit, indent, len(sig))
+            lines = _indent_lines(body, nlb, unit, indent, sig)
             if lines is None:
                 v.append(('val-indent', '%r: a line does not start with %d '
                           'spaces: %r' % (h, indent, body[:40])))
@@ -287,33 +287,11 @@ def validate_bytes(data):
     return v
 
 
-def _indent_lines(body, nlb, unit, indent, siglen):
-    """Split an indented preamble body into lines (each must start with
-    exactly `indent` spaces that are followed by aligned code units).
-    Returns stripped lines or None."""
-    out = []
-    pos = 0
-    first = True
-    while pos < len(body):
-        if body[pos:pos + indent] != b' ' * indent:
-            return None
-        start = pos + indent
-        off = start + (siglen if first and body.startswith(
-            spec.signature('utf-8') * 0 + body[start:start + siglen], start)
-            and _is_sig(body[start:start + siglen]) else 0)
-        i = spec.find_aligned(body[off:], nlb, unit)
-        if i < 0:
-            return None
-        end = off + i + len(nlb)
-        out.append(body[start:end])
-        pos = end
-        first = False
-    return out
-
-
-def _is_sig(b):
-    return b in (b'\xff\xfe', b'\xfe\xff', b'\xff\xfe\x00\x00',
-                 b'\x00\x00\xfe\xff', b'\xef\xbb\xbf')
+def _indent_lines(body, nlb, unit, indent, sig):
+    r = spec.split_indented(body, nlb, unit, indent, sig, exact=True)
+    if r is None or not r[2]:
+        return None
+    return r[1]
 
 
 def check_bytes(ex):
